@@ -18,13 +18,21 @@ for p in props:
     for node in ast.parse(src).body:
         if isinstance(node, ast.Assign) and isinstance(node.targets[0], ast.Name) and node.targets[0].id in ("LEVEL_TEXT", "LEVEL_NOTE", "TECHNIQUE", "DESIGN_REF"):
             ns[node.targets[0].id] = ast.literal_eval(node.value)
+        if isinstance(node, ast.AugAssign) and isinstance(node.target, ast.Name) and node.target.id == "TIE_A":
+            import re
+            ns["TIE_A"] = list(ns.get("TIE_A", [])) + re.findall(r'[\x27"](code:[^\x27"{]+)', ast.unparse(node.value))
+            # keys built by a comprehension over method names: expand `f"code:...{m}" for m in (...)`
+            mm = re.search(r'code:([\w.]+\.)\{(\w+)\}', ast.unparse(node.value))
+            if mm:
+                names = re.findall(r"[\x27\"](\w+)[\x27\"]", ast.unparse(node.value).split(" in ", 1)[1])
+                ns["TIE_A"] += [f"code:{mm.group(1)}{n}" for n in names]
         if isinstance(node, ast.Assign) and isinstance(node.targets[0], ast.Name) and node.targets[0].id == "TIE_A":
             try:
                 ns["TIE_A"] = eval(compile(ast.Expression(node.value), "<tie_a>", "eval"), {"__builtins__": {}}, {})
             except Exception:  # noqa: BLE001   (a list built from other module constants: only the literal code keys matter here)
                 import re
                 ns["TIE_A"] = re.findall(r'[\x27"](code:[^\x27"]+)[\x27"]', ast.unparse(node.value))
-    code = sorted(k[len("code:fuzzylite."):] for k in ns.get("TIE_A", []) if k.startswith("code:"))
+    code = sorted({k[len("code:fuzzylite."):] for k in ns.get("TIE_A", []) if k.startswith("code:")})
     if code:
         all_code.update({pid + ":" + c for c in code})
         ns["LEVEL_TEXT"] = (ns.get("LEVEL_TEXT", "") + "  Tie A for algorithms: the source of " + ", ".join(code) + " is translated to Lean on every "
